@@ -1,0 +1,167 @@
+//go:build verif
+
+// Contracts for the deductive checker in /verif (comment-only; compiled only with -tags verif).
+// C04 (block assembly part): channel order, err/fb pairing with retardation and mix, external triggers,
+// frame numbering after a gap.  The byte-stream demultiplexer of the reader goroutine is NOT under contract.
+
+package dastard
+
+// roundx: round half away from zero, as roundint computes it (proved, floats as reals; Copysign of -0.0 not modelled).
+//@ ufunc roundx(x real) int
+//@ extern func math.Copysign
+//@   pure
+//@   ensures (sign >= 0.0 ==> result == abs(f)) && (sign < 0.0 ==> result == 0.0 - abs(f))
+//@ defaxiom roundx_def: forall x real :: {roundx(x)} roundx(x) == ite(x >= 0.0, floor(x + 0.5), 0 - floor(0.5 - x))
+//@ func roundint
+//@   props C04
+//@   uses roundx_def
+//@   pure
+//@   ensures result == roundx(x) && real(result) - x <= 0.5 && x - real(result) <= 0.5
+
+// Clear2: the word with its two flag bits (frame bit, external-trigger bit) cleared.
+//@ pred Clear2(x int) := (x / 4) * 4
+// MixOf: feedback fb plus the scaled signed error e, saturated to 0..65535.
+//@ define MixOf(fb int, e int, scale real) int := ite(real(ite(e >= 32768, e - 65536, e)) * scale + real(fb) >= 65535.0, 65535, ite(real(ite(e >= 32768, e - 65536, e)) * scale + real(fb) < 0.0, 0, roundx(real(ite(e >= 32768, e - 65536, e)) * scale + real(fb))))
+// Retarded(k): the feedback value that sample k of this call is built from: the (flag-cleared) feedback of the
+// previous sample -- of the previous call for k == 0.
+//@ pred Retarded(m *Mix, fbs *[]RawType, k int) := ite(k == 0, old(m.lastFb), Clear2(oldat(*fbs, (*fbs).off + k - 1)))
+
+//@ func (*Mix).MixRetardFb
+//@   props C04
+//@   requires m != nil && fbs != nil && errs != nil && allocated(*fbs) && allocated(*errs) && len(*errs) >= len(*fbs) && (*fbs).arr != (*errs).arr
+//@   ensures shape: len(*fbs) == old(len(*fbs)) && unchanged(*fbs, *errs, m.errorScale)
+//@   ensures errkept: forall p int :: {at(*errs, p)} (*errs).off <= p && p < (*errs).off + len(*errs) ==> at(*errs, p) == oldat(*errs, p)
+//@   ensures retard: m.errorScale == 0.0 ==> (forall k int :: {(*fbs)[k]} 0 <= k && k < len(*fbs) ==> (*fbs)[k] == Retarded(m, fbs, k))
+//@   ensures mixed: m.errorScale != 0.0 ==> (forall k int :: {(*fbs)[k]} 0 <= k && k < len(*fbs) ==> (*fbs)[k] == MixOf(Retarded(m, fbs, k), (*errs)[k], m.errorScale))
+//@   ensures carry: (len(*fbs) > 0 ==> m.lastFb == Clear2(oldat(*fbs, (*fbs).off + len(*fbs) - 1))) && (len(*fbs) == 0 ==> m.lastFb == old(m.lastFb))
+//@   modifies m.lastFb, (*fbs)[*]
+//@   loop 1
+//@     invariant 0 <= j && j <= len(*fbs) && unchanged(*fbs, *errs, m.errorScale) && m.errorScale == 0.0
+//@     invariant done: forall k int :: {(*fbs)[k]} 0 <= k && k < j ==> (*fbs)[k] == Retarded(m, fbs, k)
+//@     invariant rest: forall p int :: {at(*fbs, p)} (*fbs).off + j <= p && p < (*fbs).off + len(*fbs) ==> at(*fbs, p) == oldat(*fbs, p)
+//@     invariant carry: m.lastFb == ite(j == 0, old(m.lastFb), Clear2(oldat(*fbs, (*fbs).off + j - 1)))
+//@   loop 2
+//@     invariant 0 <= j && j <= len(*fbs) && unchanged(*fbs, *errs, m.errorScale) && m.errorScale != 0.0
+//@     invariant done: forall k int :: {(*fbs)[k]} 0 <= k && k < j ==> (*fbs)[k] == MixOf(Retarded(m, fbs, k), (*errs)[k], m.errorScale)
+//@     invariant rest: forall p int :: {at(*fbs, p)} (*fbs).off + j <= p && p < (*fbs).off + len(*fbs) ==> at(*fbs, p) == oldat(*fbs, p)
+//@     invariant errkept: forall p int :: {at(*errs, p)} (*errs).off <= p && p < (*errs).off + len(*errs) ==> at(*errs, p) == oldat(*errs, p)
+//@     invariant carry: m.lastFb == ite(j == 0, old(m.lastFb), Clear2(oldat(*fbs, (*fbs).off + j - 1)))
+//@     apply MixOf_def(m.lastFb, (*errs)[j], m.errorScale)
+
+//@ extern func (time.Time).Sub
+//@   pure
+//@   ensures result == tns(t) - tns(u)
+//@ extern func (time.Duration).Seconds
+//@   pure
+//@   ensures (d >= 0 ==> result >= 0.0) && (d <= 0 ==> result <= 0.0)
+//@ extern func (*log.Logger).Printf
+//@   pure
+
+// BuffersOK: one buffer per channel in READOUT order (all columns of row 0, then row 1, ...; error word then feedback
+// word), all of the same length, pairwise distinct arrays.
+//@ pred LBuffersOK(dc [][]RawType) := allocated(dc) && len(dc) > 0
+//@     && (forall p int :: {at(dc, p)} dc.off <= p && p < dc.off + len(dc) ==> allocated(at(dc, p)) && len(at(dc, p)) == len(at(dc, dc.off)) && at(dc, p).arr != 0)
+//@     && (forall p int, q int :: {at(dc, p), at(dc, q)} dc.off <= p && p < q && q < dc.off + len(dc) ==> at(dc, p).arr != at(dc, q).arr)
+// OrderOK: chan2readoutOrder maps every channel to a readout index in range, one-to-one, and the feedback channel
+// 2q+1 to the readout word right after its error channel 2q (established by updateChanOrderMap).
+//@ pred OrderOK(ls *LanceroSource, n int) := allocated(ls.chan2readoutOrder) && len(ls.chan2readoutOrder) == n && allocated(ls.Mix) && len(ls.Mix) == n
+//@     && (forall c int :: {ls.chan2readoutOrder[c]} 0 <= c && c < n ==> 0 <= ls.chan2readoutOrder[c] && ls.chan2readoutOrder[c] < n)
+//@     && (forall c int, d int :: {ls.chan2readoutOrder[c], ls.chan2readoutOrder[d]} 0 <= c && c < d && d < n ==> ls.chan2readoutOrder[c] != ls.chan2readoutOrder[d])
+//@     && (forall c int :: {ls.chan2readoutOrder[c]} 0 <= c && c + 1 < n && c % 2 == 0 ==> ls.chan2readoutOrder[c + 1] == ls.chan2readoutOrder[c] + 1)
+//@     && (forall c int :: {ls.Mix[c]} 0 <= c && c < n ==> ls.Mix[c] != nil && allocated(ls.Mix[c]))
+//@     && (forall c int, d int :: {ls.Mix[c], ls.Mix[d]} 0 <= c && c < d && d < n ==> ls.Mix[c] != ls.Mix[d])
+// FirstCard: the geometry of the first active card (its words come first in every frame).
+//@ pred FirstCard(ls *LanceroSource, n int) := allocated(ls.active) && len(ls.active) > 0 && ls.active[0] != nil && 1 <= ls.active[0].nrows && 1 <= ls.active[0].ncols
+//@     && ls.active[0].nrows < 65536 && ls.active[0].ncols < 65536 && 2 * mul(ls.active[0].nrows, ls.active[0].ncols) <= n
+// ExtBit(dc, k, rows, cols): level of the external-trigger input while row k%rows of frame k/rows was read out: bit 1
+// of the feedback word of (that row, column 0).
+//@ pred ExtWord(dc [][]RawType, r int, f int, cols int) := oldat(at(dc, dc.off + 2 * mul(r, cols) + 1), at(dc, dc.off + 2 * mul(r, cols) + 1).off + f)
+//@ pred ExtHigh(w int) := (w / 2) % 2 == 1
+// ExtIn(dc, f, r, cols): level of the trigger input while physical row r of frame f was read out.
+//@ pred ExtIn(dc [][]RawType, f int, r int, cols int) := ExtHigh(ExtWord(dc, r, f, cols))
+// ExtBefore: its level one row earlier (the last row of the previous frame, or the state carried from the previous block).
+//@ pred ExtBefore(ls *LanceroSource, dc [][]RawType, f int, r int, rows int, cols int) := ite(r > 0, ExtIn(dc, f, r - 1, cols), ite(f > 0, ExtIn(dc, f - 1, rows - 1, cols), old(ls.externalTriggerLastState)))
+//@ pred ExtRise(ls *LanceroSource, dc [][]RawType, f int, r int, rows int, cols int) := ExtIn(dc, f, r, cols) && !ExtBefore(ls, dc, f, r, rows, cols)
+// Witnesses: gtf[j] / gtr[j] = frame (within the block) and physical row of the j-th reported trigger.
+//@ ghost field LanceroSource.gtf intmap
+//@ ghost field LanceroSource.gtr intmap
+// Scanned(f, r, F, R): position (f, r) comes before the scan position (F, R) in readout order.
+//@ pred Scanned(f int, r int, F int, R int) := f < F || (f == F && r < R)
+//@ pred TrigPos(ls *LanceroSource, list []int64, rows int, F int, R int) := forall j int :: {ls.gtf[j]} 0 <= j && j < len(list) ==> 0 <= ls.gtf[j] && 0 <= ls.gtr[j] && ls.gtr[j] < rows && Scanned(ls.gtf[j], ls.gtr[j], F, R)
+//@ pred TrigRise(ls *LanceroSource, dc [][]RawType, list []int64, rows int, cols int) := forall j int :: {ls.gtf[j]} 0 <= j && j < len(list) ==> ExtRise(ls, dc, ls.gtf[j], ls.gtr[j], rows, cols)
+//@ pred TrigVal(ls *LanceroSource, list []int64, first FrameIndex, rows int) := forall j int :: {list[j]} 0 <= j && j < len(list) ==> list[j] == mul(ls.gtf[j] + first, rows) + ls.gtr[j]
+//@ pred TrigSound(ls *LanceroSource, dc [][]RawType, list []int64, first FrameIndex, rows int, cols int, F int, R int) := TrigPos(ls, list, rows, F, R) && TrigRise(ls, dc, list, rows, cols) && TrigVal(ls, list, first, rows)
+//@ pred TrigOrdered(ls *LanceroSource, n int) := forall i int, j int :: {ls.gtf[i], ls.gtf[j]} 0 <= i && i < j && j < n ==> Scanned(ls.gtf[i], ls.gtr[i], ls.gtf[j], ls.gtr[j])
+//@ pred TrigComplete(ls *LanceroSource, dc [][]RawType, list []int64, rows int, cols int, F int, R int) := forall f int, r int :: {ExtIn(dc, f, r, cols)} 0 <= f && 0 <= r && r < rows && Scanned(f, r, F, R) && ExtRise(ls, dc, f, r, rows, cols) ==>
+//@        (exists j int :: {wit(j)} wit(j) && 0 <= j && j < len(list) && ls.gtf[j] == f && ls.gtr[j] == r)
+
+// FbOut(ls, dc, c, k): what sample k of feedback channel c must hold on return: the previous sample's feedback word of
+// the same pixel with its flag bits cleared (the previous block's last word for k == 0), plus -- when a mix fraction is
+// set -- the scaled signed error word of the SAME sample of the SAME pixel (the readout word right before the feedback
+// word), saturated to 0..65535.
+//@ pred FbPrev(ls *LanceroSource, dc [][]RawType, c int, k int) := ite(k == 0, old(ls.Mix[c].lastFb), Clear2(oldat(at(dc, dc.off + ls.chan2readoutOrder[c]), at(dc, dc.off + ls.chan2readoutOrder[c]).off + k - 1)))
+//@ pred FbErr(ls *LanceroSource, dc [][]RawType, c int, k int) := oldat(at(dc, dc.off + ls.chan2readoutOrder[c] - 1), at(dc, dc.off + ls.chan2readoutOrder[c] - 1).off + k)
+//@ pred FbOut(ls *LanceroSource, dc [][]RawType, c int, k int) := ite(ls.Mix[c].errorScale == 0.0, FbPrev(ls, dc, c, k), MixOf(FbPrev(ls, dc, c, k), FbErr(ls, dc, c, k), ls.Mix[c].errorScale))
+
+//@ func (*LanceroSource).distributeData
+//@   props C04
+//@   uses mulmono
+//@   requires ls != nil && LBuffersOK(buffersMsg.datacopies) && OrderOK(ls, len(buffersMsg.datacopies)) && FirstCard(ls, len(buffersMsg.datacopies)) && !ls.mixedRowCounts && ProblemLogger != nil
+//@   requires clock: tns(buffersMsg.lastSampleTime) >= tns(ls.previousLastSampleTime) && ls.sampleRate > 0.0 && ls.nextFrameNum >= 0
+//@   ensures block: result != nil && fresh(result) && len(result.segments) == len(buffersMsg.datacopies) && fresh(result.segments)
+//@   ensures frames: ls.nextFrameNum >= old(ls.nextFrameNum) + len(at(buffersMsg.datacopies, buffersMsg.datacopies.off))
+//@        && (forall c int :: {result.segments[c]} 0 <= c && c < len(result.segments) ==>
+//@              result.segments[c].firstFrameIndex == ls.nextFrameNum - len(at(buffersMsg.datacopies, buffersMsg.datacopies.off)) && result.segments[c].firstFrameIndex >= old(ls.nextFrameNum)
+//@              && result.segments[c].framesPerSample == 1 && (!buffersMsg.dataDropDetected ==> result.segments[c].firstFrameIndex == old(ls.nextFrameNum) && result.segments[c].droppedFrames == 0))
+//@   ensures order: forall c int :: {result.segments[c]} 0 <= c && c < len(result.segments) ==>
+//@        result.segments[c].rawData == at(buffersMsg.datacopies, buffersMsg.datacopies.off + ls.chan2readoutOrder[c]) && result.segments[c].signed == (c % 2 == 0)
+//@   ensures errors: forall c int :: {result.segments[c]} 0 <= c && c < len(result.segments) && c % 2 == 0 ==>
+//@        (forall p int :: {at(result.segments[c].rawData, p)} result.segments[c].rawData.off <= p && p < result.segments[c].rawData.off + len(result.segments[c].rawData) ==> at(result.segments[c].rawData, p) == oldat(result.segments[c].rawData, p))
+//@   ensures triggers: TrigSound(ls, buffersMsg.datacopies, result.externalTriggerRowcounts, ls.nextFrameNum - len(at(buffersMsg.datacopies, buffersMsg.datacopies.off)), ls.active[0].nrows, ls.active[0].ncols, len(at(buffersMsg.datacopies, buffersMsg.datacopies.off)), 0)
+//@        && TrigOrdered(ls, len(result.externalTriggerRowcounts))
+//@        && TrigComplete(ls, buffersMsg.datacopies, result.externalTriggerRowcounts, ls.active[0].nrows, ls.active[0].ncols, len(at(buffersMsg.datacopies, buffersMsg.datacopies.off)), 0)
+//@   ensures feedback: forall c int, k int :: {result.segments[c].rawData[k]} 0 <= c && c < len(result.segments) && c % 2 == 1 && 0 <= k && k < len(result.segments[c].rawData) ==> result.segments[c].rawData[k] == FbOut(ls, buffersMsg.datacopies, c, k)
+//@   modifies ls.nextFrameNum, ls.previousLastSampleTime.*, ls.externalTriggerLastState, any(Mix).lastFb, anyarray(RawType), ls.gtf, ls.gtr
+//@   uses wit_all
+//@   ghost loop 2: ls.gtf[len(externalTriggerRowcounts) - 1] := ite(ExtRise(ls, datacopies, frame, row - 1, nrows, ncols), frame, ls.gtf[len(externalTriggerRowcounts) - 1])
+//@   ghost loop 2: ls.gtr[len(externalTriggerRowcounts) - 1] := ite(ExtRise(ls, datacopies, frame, row - 1, nrows, ncols), row - 1, ls.gtr[len(externalTriggerRowcounts) - 1])
+//@   loop 1
+//@     invariant 0 <= frame && frame <= framesUsed && framesUsed == len(at(datacopies, datacopies.off)) && datacopies == buffersMsg.datacopies && nchan == len(datacopies) && nrows == ls.active[0].nrows && ncols == ls.active[0].ncols
+//@     invariant st: block != nil && fresh(block) && len(block.segments) == nchan && fresh(block.segments) && allocated(block.segments) && unchanged(ls.nextFrameNum, ls.chan2readoutOrder, ls.Mix, ls.active, ls.mixedRowCounts) && LBuffersOK(datacopies) && OrderOK(ls, nchan) && FirstCard(ls, nchan)
+//@     invariant first: firstFrameNum >= ls.nextFrameNum && (!dataDropDetected ==> firstFrameNum == ls.nextFrameNum && droppedFrames == 0) && dataDropDetected == buffersMsg.dataDropDetected
+//@     invariant raw: forall p int, q int :: {at(at(datacopies, p), q)} datacopies.off <= p && p < datacopies.off + nchan ==> at(at(datacopies, p), q) == oldat(at(datacopies, p), q)
+//@     invariant trig: allocated(externalTriggerRowcounts) && (externalTriggerRowcounts.arr == 0 || fresh(externalTriggerRowcounts))
+//@     invariant last: ls.externalTriggerLastState == ite(frame > 0, ExtIn(datacopies, frame - 1, nrows - 1, ncols), old(ls.externalTriggerLastState))
+//@     invariant sound: TrigSound(ls, datacopies, externalTriggerRowcounts, firstFrameNum, nrows, ncols, frame, 0) && TrigOrdered(ls, len(externalTriggerRowcounts))
+//@     invariant complete: TrigComplete(ls, datacopies, externalTriggerRowcounts, nrows, ncols, frame, 0)
+//@   loop 2
+//@     invariant 0 <= frame && frame < framesUsed && 0 <= row && row <= nrows && framesUsed == len(at(datacopies, datacopies.off)) && datacopies == buffersMsg.datacopies && nchan == len(datacopies) && nrows == ls.active[0].nrows && ncols == ls.active[0].ncols
+//@     invariant st: block != nil && fresh(block) && len(block.segments) == nchan && fresh(block.segments) && allocated(block.segments) && unchanged(ls.nextFrameNum, ls.chan2readoutOrder, ls.Mix, ls.active, ls.mixedRowCounts) && LBuffersOK(datacopies) && OrderOK(ls, nchan) && FirstCard(ls, nchan)
+//@     invariant first: firstFrameNum >= ls.nextFrameNum && (!dataDropDetected ==> firstFrameNum == ls.nextFrameNum && droppedFrames == 0) && dataDropDetected == buffersMsg.dataDropDetected
+//@     invariant raw: forall p int, q int :: {at(at(datacopies, p), q)} datacopies.off <= p && p < datacopies.off + nchan ==> at(at(datacopies, p), q) == oldat(at(datacopies, p), q)
+//@     invariant trig: allocated(externalTriggerRowcounts) && (externalTriggerRowcounts.arr == 0 || fresh(externalTriggerRowcounts))
+//@     invariant last: ls.externalTriggerLastState == ExtBefore(ls, datacopies, frame, row, nrows, ncols) || row == nrows
+//@     invariant lastend: row == nrows ==> ls.externalTriggerLastState == ExtIn(datacopies, frame, nrows - 1, ncols)
+//@     invariant sound: TrigSound(ls, datacopies, externalTriggerRowcounts, firstFrameNum, nrows, ncols, frame, row) && TrigOrdered(ls, len(externalTriggerRowcounts))
+//@     invariant complete: TrigComplete(ls, datacopies, externalTriggerRowcounts, nrows, ncols, frame, row)
+//@     hint seed: wit(len(externalTriggerRowcounts) - 1)
+//@     apply frameindex(row, nrows, 0, ncols) && mul_def(row, ncols) && mul_def(frame + firstFrameNum, nrows)
+//@   loop 3
+//@     invariant 0 <= channelIndex && channelIndex <= nchan && framesUsed == len(at(datacopies, datacopies.off)) && datacopies == buffersMsg.datacopies && nchan == len(datacopies)
+//@     invariant st: block != nil && fresh(block) && len(block.segments) == nchan && fresh(block.segments) && allocated(block.segments) && unchanged(ls.nextFrameNum, ls.chan2readoutOrder, ls.Mix, ls.active) && LBuffersOK(datacopies) && OrderOK(ls, nchan)
+//@     invariant first: firstFrameNum >= ls.nextFrameNum && (!dataDropDetected ==> firstFrameNum == ls.nextFrameNum && droppedFrames == 0) && dataDropDetected == buffersMsg.dataDropDetected
+//@     invariant done: forall c int :: {block.segments[c]} 0 <= c && c < channelIndex ==> block.segments[c].rawData == at(datacopies, datacopies.off + ls.chan2readoutOrder[c]) && block.segments[c].signed == (c % 2 == 0)
+//@          && block.segments[c].firstFrameIndex == firstFrameNum && block.segments[c].framesPerSample == 1 && block.segments[c].droppedFrames == droppedFrames
+//@     invariant errors: forall c int :: {ls.chan2readoutOrder[c]} 0 <= c && c < nchan && c % 2 == 0 ==>
+//@          (forall q int :: {at(at(datacopies, datacopies.off + ls.chan2readoutOrder[c]), q)} at(at(datacopies, datacopies.off + ls.chan2readoutOrder[c]), q) == oldat(at(datacopies, datacopies.off + ls.chan2readoutOrder[c]), q))
+//@     invariant todo: forall c int :: {ls.chan2readoutOrder[c]} channelIndex <= c && c < nchan && c % 2 == 1 ==> ls.Mix[c].lastFb == old(ls.Mix[c].lastFb)
+//@          && (forall q int :: {at(at(datacopies, datacopies.off + ls.chan2readoutOrder[c]), q)} at(at(datacopies, datacopies.off + ls.chan2readoutOrder[c]), q) == oldat(at(datacopies, datacopies.off + ls.chan2readoutOrder[c]), q))
+//@     invariant scales: forall c int :: {ls.Mix[c]} 0 <= c && c < nchan ==> ls.Mix[c].errorScale == old(ls.Mix[c].errorScale)
+//@     hint same: block.segments[channelIndex - 1].rawData == data && data == at(datacopies, datacopies.off + ls.chan2readoutOrder[channelIndex - 1]) && len(data) == framesUsed
+//@     hint newfb: forall c int :: {ls.Mix[c]} c == channelIndex - 1 && c % 2 == 1 ==> (forall k int :: {data[k]} 0 <= k && k < framesUsed ==> data[k] == FbOut(ls, datacopies, c, k))
+//@     invariant feedback: forall c int, k int :: {block.segments[c].rawData[k]} 0 <= c && c < channelIndex && c % 2 == 1 && 0 <= k && k < framesUsed ==> block.segments[c].rawData[k] == FbOut(ls, datacopies, c, k)
+
+// updateChanOrderMap (nested div/mod index arithmetic) is not under contract; the precondition OrderOK of
+// distributeData that it establishes, and that the table is the true geometry, are checked on the real code by a
+// bounded stand-in.
+//@ bounded C04 TestVerifBoundedLanceroChanOrder : real updateChanOrderMap for every geometry of 1..3 cards (first card up to 6x6, others up to 3x3): permutation, fb right after err, channel (card,col,row) -> readout word (row-major)
